@@ -264,6 +264,17 @@ def gen_merge(rng, nmax):
         # differences exactly equal to the threshold (k*t and (k+1)*t are exact for t = float(1e-12))
         k = 2 ** rng.randint(0, 8)
         return {'op': 'merge', 'a': qs([k * THR, 1.0]), 'b': qs([(k + 1) * THR, (k + 2) * THR + THR / 4, 2.0])}
+    if rng.random() < 0.1:
+        # two sets whose ranges do not overlap, abutting at a near-coincident junction (or with a too-close pair inside
+        # one of them): the thinning and the ordering must not depend on how the sets are placed
+        lo = sorted({float(O.dy(rng, 100, 4000, 3)) for _ in range(rng.randint(1, 5))})
+        hi0 = lo[-1] + rng.choice([0.0, 10 ** rng.uniform(-15.5, -12.3), 4e-13, 1.0, 50.0])
+        hi = sorted({hi0} | {hi0 + float(O.dy(rng, 1, 3000, 3)) for _ in range(rng.randint(0, 4))})
+        if rng.random() < 0.4 and len(hi) >= 2:
+            hi.insert(1, hi[0] + 10 ** rng.uniform(-15.5, -12.3))
+            hi = sorted(set(hi))
+        a_, b_ = (lo, hi) if rng.random() < 0.5 else (hi, lo)
+        return {'op': 'merge', 'a': qs(a_), 'b': qs(b_)}
     if rng.random() < 0.15:
         # the same nominal grid twice, every point of the second set within the threshold of its partner (or equal to
         # it), on either side: same length, pairwise close, not identical
